@@ -80,12 +80,17 @@ pub(crate) struct KInfo<T: NumberLike> {
 impl<T: NumberLike> Prefix<T> {
   pub(crate) fn k_info(&self) -> KInfo<T> {
     let diff = (self.upper.to_unsigned() - self.lower.to_unsigned()) / self.gcd;
-    let k = (diff.to_f64() + 1.0).log2().floor() as usize;
-    let only_k_bits_upper = if k == T::Unsigned::BITS {
+    let k_upper = |k: usize| if k == T::Unsigned::BITS {
       T::Unsigned::MAX
     } else {
       (T::Unsigned::ONE << k) - T::Unsigned::ONE
     };
+    // the float estimate can be 1 too high just below a power of 2
+    let mut k = (diff.to_f64() + 1.0).log2().floor() as usize;
+    if k_upper(k) > diff {
+      k -= 1;
+    }
+    let only_k_bits_upper = k_upper(k);
     let only_k_bits_lower = diff - only_k_bits_upper;
 
     KInfo {
